@@ -204,11 +204,37 @@ def h_project_grid(ctx):
                 return RealDelaunay.find_simplex(self, xi, *a2, **k2)
 
         vmask.Delaunay = RecDelaunay
+    pgkw = {}
+    out_sh = sh
+    if cfg.get("region_arg"):
+        # requested region (any valid region, not the projected data's bounding box) and, optionally, shape
+        rw, re_, rs, rn = ctx.real("RW"), ctx.real("RE"), ctx.real("RS"), ctx.real("RN")
+        ctx.assume(rw < re_)
+        ctx.assume(rs < rn)
+        # bound: the requested extent is between half and twice the projected data extent (keeps node counts small
+        # should the spacing ever be derived from another region)
+        dw, dh = (east[-1] - east[0]) * a, (north[-1] - north[0]) * c
+        ctx.assume((re_ - rw) * 2 >= dw)
+        ctx.assume(re_ - rw <= dw * 2)
+        ctx.assume((rn - rs) * 2 >= dh)
+        ctx.assume(rn - rs <= dh * 2)
+        pgkw["region"] = (rw, re_, rs, rn)
+        if cfg.get("shape_arg"):
+            pgkw["shape"] = tuple(cfg["shape_arg"])
+            out_sh = tuple(cfg["shape_arg"])
     try:
-        out = vd.project_grid(grid, projection, method=vd.Linear(), antialias=False)
+        out = vd.project_grid(grid, projection, method=vd.Linear(), antialias=False, **pgkw)
     finally:
         if not ctx.sym:
             vmask.Delaunay = RealDelaunay
+    if cfg.get("region_arg"):
+        ctx.claim("result is a DataArray with the input's name on the requested region with the requested (or the input's) shape", And(isinstance(out, xr.DataArray), out.name == name, tuple(out.dims) == dims, out.shape == out_sh))
+        if out.shape == out_sh:
+            for j in range(out_sh[1]):
+                ctx.claim("easting nodes: regular grid of the requested region", eq(out.coords["easting"].values[j] * max(out_sh[1] - 1, 1), rw * max(out_sh[1] - 1, 1) + j * (re_ - rw)))
+            for i in range(out_sh[0]):
+                ctx.claim("northing nodes: regular grid of the requested region", eq(out.coords["northing"].values[i] * max(out_sh[0] - 1, 1), rs * max(out_sh[0] - 1, 1) + i * (rn - rs)))
+        return
     ctx.claim("result is a DataArray with the input's name, dims and shape", And(isinstance(out, xr.DataArray), out.name == name, tuple(out.dims) == dims, out.shape == sh))
     if out.shape != sh:
         return
@@ -314,7 +340,7 @@ def _aa_globals(cfg):
 
 
 def _cfg_pg(tier, seed):
-    q = [{"shape": (2, 2), "proj": ("2", "3")}, {"shape": (2, 3), "proj": ("1/2", "5"), "oracle_free": 2}, {"shape": (2, 3), "proj": ("3", "2"), "oracle_free": 1, "transposed": True}]
+    q = [{"shape": (2, 2), "proj": ("2", "3")}, {"shape": (2, 3), "proj": ("1/2", "5"), "oracle_free": 2}, {"shape": (2, 3), "proj": ("3", "2"), "oracle_free": 1, "transposed": True}, {"shape": (2, 3), "proj": ("2", "3"), "oracle_free": 0, "region_arg": True}, {"shape": (2, 2), "proj": ("2", "3"), "oracle_free": 0, "region_arg": True, "shape_arg": (3, 2)}]
     if tier == "quick":
         return q
     return q + [{"shape": (2, 3), "proj": ("1/2", "5"), "name": None}, {"shape": (2, 3), "proj": ("2", "3"), "hole": (0, 1)}, {"shape": (3, 3), "proj": ("7", "1/3")}]
